@@ -61,7 +61,7 @@ def gen_case(streams, tier):
     cfg = gen.make_cfg(nets=(2, 16), class_pool=['bit', 'small', 'mid', 'w64'],
                        mem_wide_aw=0.0, regs=(0, 3), mems=(0, 2), async_prob=0.3,
                        names=g.choice(['plain', 'awkward']), awk_internal=0.3,
-                       awk_exclude=('tmp',))
+                       awk_exclude=('tmp',), dup_mem_name_prob=0.3)
     script = gen.gen_script(g, cfg)
     f = streams['faults']
     sites = enumerate_sites(script, f)
@@ -542,6 +542,12 @@ def run(case, res):
     sched = case['sched']
     world.setup_world(sched)
     # ---- positive half ------------------------------------------------------------------
+    # somebody else's block, restricted in place to the ops its owner wants to allow: what one
+    # Block permits is that Block's own business
+    theirs = pyrtl.Block()
+    for op_ in sorted(theirs.legal_ops)[::2]:
+        theirs.legal_ops.discard(op_)
+    res.faults.hit('foreign_block_narrows_its_legal_ops')
     b = build(script, perm_seed=sched.get('perm_seed'))
     try:
         b.block.sanity_check()
